@@ -105,8 +105,11 @@ def variant_modules(rnd, quick):
     mods.append(('denseswitch', hostile.dense_switch(3000 if quick else 6000).encode(), None))
     for k in range(3 if quick else 12):
         mods.append(('dseg%d' % k, dataseg_module(env.rng('c09-dseg', k))[0].encode(), ('dseg', k)))
-    for k in range(3 if quick else 20):
-        c = gen.build_program_module(env.rng('c09-gen', k), gen.Profile(), n_funcs=9)
+    for k in range(8 if quick else 30):
+        # every other generated program is control-heavy (value-carrying branches out of nested blocks, switches, dead code): the shapes
+        # whose C text differs most between the formatting modes
+        prof = gen.Profile() if k % 2 == 0 else gen.Profile(nan_canon=True, allow_trap=False, w_control=3.0, w_trace=1.5, w_mem=0.5, w_call=0.5, max_depth=6, max_stmts=4, brtable_max=20, max_locals=20, max_size=400)
+        c = gen.build_program_module(env.rng('c09-gen', k), prof, n_funcs=9)
         if k % 2:
             c.mod.func_names = {i + 2: 'g%d_%d' % (k, i) for i in range(0, 9, 2)}
         mods.append(('gen%d' % k, c.mod.encode(), (c, k)))
